@@ -2,7 +2,7 @@
 
 Round trip: response.set_cookie -> the Set-Cookie value in BaseResponse.headerlist -> its
 name=value part as the Cookie header of a new request -> Request.get_cookie.
-Forgery: every single-byte substitution (16-symbol alphabet), deletion and truncation of the
+Forgery: every single-byte substitution (16-symbol alphabet; in the thorough tier also every printable ASCII symbol), deletion and truncation of the
 returned cookie, signature/payload swaps, length changes, another secret, another name, in
 quoted and unquoted transport form, alone and between other cookies.  A pickle spy (the name
 `pickle` inside ombott.common_helpers rebound to a recording proxy before any cookie code runs)
@@ -28,6 +28,7 @@ ASSUMPTIONS = ['cookie names are RFC 6265 tokens accepted by http.cookies; value
                'the standard library cookie parser and pickle are trusted; the spy delegates to the real loads']
 
 SUBST = list('Aa0+/=!?"\\;, \0') + ['%', 'Z']
+SUBST_FULL = [chr(c) for c in range(32, 127)] + ['\0', '\t', '\x7f', '\xe9']      # every printable ASCII symbol and a few others
 NAMES = ['s', 'session', 'a', 'id_1', 'X-y', 'tok.en', 'n~m', 'k!', 'UPPER', 'a1b2']
 SECRETS = ['k', 'secret', 'sé crèt', '日本', 'with space', 'a' * 64, '!?', '0', '\U0001f511key', 'p@ss;word']
 PLAIN = ['v', 'hello', 'a b', 'a;b', 'a,b', 'a=b', '"quoted"', 'back\\slash', 'tab\there', 'new\nline', 'cr\rlf', 'é', 'ÿ', 'naïve café',
@@ -230,6 +231,7 @@ def tamper_one(ctx, mon, name, value, secret, signed_string, header, what, wit_e
 def tamper_unit(ctx, unit):
     rng = ctx.rng
     mon = Mon(ctx)
+    SUBST = SUBST_FULL if unit.get('alphabet') == 'full' else globals()['SUBST']
     for ci in range(unit['cookies']):
         name = rng.choice(NAMES)
         secret = rng.choice(SECRETS)
@@ -328,7 +330,8 @@ def tamper_unit(ctx, unit):
 def plan(tier, seed):
     if tier == 'quick':
         return [{'kind': 'roundtrip', 'n': 800, 'sub': i} for i in range(3)] + [{'kind': 'tamper', 'cookies': 2, 'sub': i} for i in range(5)]
-    return [{'kind': 'roundtrip', 'n': 6000, 'sub': i} for i in range(8)] + [{'kind': 'tamper', 'cookies': 10, 'sub': i} for i in range(40)]
+    return ([{'kind': 'roundtrip', 'n': 6000, 'sub': i} for i in range(8)] + [{'kind': 'tamper', 'cookies': 10, 'sub': i} for i in range(40)]
+            + [{'kind': 'tamper', 'cookies': 2, 'alphabet': 'full', 'sub': i} for i in range(24)])
 
 
 def run_unit(ctx, unit):
